@@ -698,13 +698,25 @@ pub fn gen_history(rng: &mut Rng, sc: &mut Scenario) {
         }
         let op = match rng.below(12) {
             0 => BOp::Reserve(*rng.pick(&[0usize, 1, 16, 4096, 1 << 20])),
-            1 | 2 => BOp::SetLength(match rng.below(5) {
-                0 => None,
-                1 => Some(0),
-                2 => Some(65535),
-                3 => Some(rng.below(300) as u16),
-                _ => Some(rng.below(65536) as u16),
-            }),
+            1 | 2 => {
+                // earlier explicit lengths of this history, for byte-swapped twins
+                let earlier: Vec<u16> = ops
+                    .iter()
+                    .filter_map(|o| match o {
+                        BOp::SetLength(Some(x)) => Some(*x),
+                        _ => None,
+                    })
+                    .collect();
+                BOp::SetLength(match rng.below(8) {
+                    0 => None,
+                    1 => Some(0),
+                    2 => Some(65535),
+                    3 => Some(rng.below(300) as u16),
+                    4 => Some(*rng.pick(&[1u16, 255, 256, 257, 0x1234, 0x3412, 0x00ff, 0xff00])),
+                    5 if !earlier.is_empty() => Some(rng.pick(&earlier).swap_bytes()),
+                    _ => Some(rng.below(65536) as u16),
+                })
+            }
             3..=6 => BOp::Write(gen_payload(rng, big)),
             7 | 8 => {
                 let k = rng.range(0, 6);
@@ -748,6 +760,16 @@ pub fn gen_history(rng: &mut Rng, sc: &mut Scenario) {
         };
         let l = if rng.chance(1, 5) {
             None
+        } else if rng.chance(1, 3) {
+            // the byte-swapped twin of the body length or of an earlier explicit length:
+            // what a byte-order slip confuses with the right value
+            let m = run_model(&ctor, &ops);
+            let body = (m.body_len() % 65536) as u16;
+            let earlier = ops.iter().find_map(|o| match o {
+                BOp::SetLength(Some(x)) => Some(*x),
+                _ => None,
+            });
+            Some(earlier.filter(|_| rng.chance(1, 2)).unwrap_or(body).swap_bytes())
         } else {
             Some(rng.below(65536) as u16)
         };
